@@ -250,3 +250,35 @@ func outLast() any                               { return nil }
 //@ props C18
 //@ atcall AppendFormat assert [C18] same-layout-as-String: arg_layout == timestampTZOutputFormat && arg_recv == ts.Time
 //@ ensures [C18] no-error: r1 == nil
+
+// ---------------------------------------------------------------------------
+// hostile JSON: anything that is not a quoted string is an error (C18)
+
+//@ func unquote
+//@ props C18
+//@ ensures [C18] quoted-only: r1 == (len(data) >= 2 && data[0] == '"' && data[len(data)-1] == '"')
+
+//@ func (*Date).UnmarshalJSON
+//@ props C18
+//@ modifies d.*
+//@ ensures [C18] non-string-rejected: !(len(data) >= 2 && data[0] == '"' && data[len(data)-1] == '"') ==> r0 != nil && errIs(r0, ErrSQLType)
+
+//@ func (*Time).UnmarshalJSON
+//@ props C18
+//@ modifies t.*
+//@ ensures [C18] non-string-rejected: !(len(data) >= 2 && data[0] == '"' && data[len(data)-1] == '"') ==> r0 != nil && errIs(r0, ErrSQLType)
+
+//@ func (*TimeTZ).UnmarshalJSON
+//@ props C18
+//@ modifies t.*
+//@ ensures [C18] non-string-rejected: !(len(data) >= 2 && data[0] == '"' && data[len(data)-1] == '"') ==> r0 != nil && errIs(r0, ErrSQLType)
+
+//@ func (*Timestamp).UnmarshalJSON
+//@ props C18
+//@ modifies ts.*
+//@ ensures [C18] non-string-rejected: !(len(data) >= 2 && data[0] == '"' && data[len(data)-1] == '"') ==> r0 != nil && errIs(r0, ErrSQLType)
+
+//@ func (*TimestampTZ).UnmarshalJSON
+//@ props C18
+//@ modifies ts.*
+//@ ensures [C18] non-string-rejected: !(len(data) >= 2 && data[0] == '"' && data[len(data)-1] == '"') ==> r0 != nil && errIs(r0, ErrSQLType)
